@@ -341,14 +341,33 @@ def _runs(ctx, budget):
         spec = gen_pipeline(rng, n_rec, allow_sleep=parallel, family=rng.random() < 0.45)
         store_kind = rng.choice(["dir", "dir", "sqlite"])
         members = list(spec["members"])
+        # the first runs of every plan are FORCED histories (never left to chance): a resumed run into a directory store with a CHANGED
+        # app, where an input that failed in the first run is among the inputs of the second (it must be retried and re-recorded)
+        forced = (not parallel) and i < ctx.budget(4, 24)
+        if forced:
+            for _ in range(40):
+                if len(members) >= 2 and any(spec["outcome"].get(m) in ("raise", "nc", "none") for m in members):
+                    break
+                n_rec = rng.randint(3, 8)
+                spec = gen_pipeline(rng, n_rec, allow_sleep=False, family=rng.random() < 0.45)
+                members = list(spec["members"])
+            failing = [m for m in members if spec["outcome"].get(m) in ("raise", "nc", "none")]
+            if failing and len(members) >= 2:
+                members.remove(failing[0])
+                members.insert(rng.randrange(0, max(1, len(members) - 1)), failing[0])  # somewhere before the last input
+            store_kind = "dir"
         tag = f"{budget}_{i}"
         r = dict(spec=spec, members=members, store_kind=store_kind, parallel=parallel, mw=mw, par_kw=par_kw, tag=tag, pre=None)
         # a third of the runs are resumed runs (mode='a'): first a prefix of the inputs (serially), then all of them
-        if rng.random() < 0.35 and n_rec >= 2:
-            j = rng.randint(1, n_rec - 1)
+        if (forced or rng.random() < 0.35) and n_rec >= 2 and len(members) >= 2:
+            j = rng.randint(1, len(members) - 1)
+            if forced:
+                fidx = [k for k, m in enumerate(members) if spec["outcome"].get(m) in ("raise", "nc", "none")]
+                if fidx:
+                    j = rng.randint(min(fidx) + 1, len(members) - 1) if min(fidx) + 1 <= len(members) - 1 else len(members) - 1
             first = run_apply(ctx, tag, spec, members[:j], store_kind, False, mw)
             r["pre"] = dict(members=members[:j], res=first)
-            if store_kind == "dir" and rng.random() < 0.6:
+            if store_kind == "dir" and (forced or rng.random() < 0.6):
                 # the re-run uses a CHANGED app (the failing records now fail differently): every not-completed record must name
                 # the CURRENT failure (directory store: a failed input is retried; sqlite never retries it, see apply_idempotent_resume_sqlite)
                 r["spec2"] = changed_spec(spec)
